@@ -763,6 +763,7 @@ type c07 struct {
 	fx       string // which variant of the model the real code is compared with: "1" = repaired (default)
 	reported map[string]int
 	differs  map[string]int
+	longLine int            // writerCase: >0 = prepend a long line whose address straddles this offset
 	tagCount map[string]int // address families ("a:…") and delimiter classes ("d:…") the Scrub cases contained
 }
 
@@ -956,6 +957,11 @@ func TestVerifC07(t *testing.T) {
 			c.writerCase(g, ls)
 		}
 	}
+	for i := 0; i < r.N(36, 600); i++ {
+		c.longLine = []int{512, 1024, 2048, 4096, 8192, 16384}[i%6]
+		c.writerCase(g, nil)
+	}
+	c.longLine = 0
 	for i := 0; i < r.N(700, 20000); i++ {
 		c.writerCase(g, nil)
 	}
@@ -1070,6 +1076,36 @@ func (c *c07) writerCase(g *gen, ls [][]piece) {
 		stream = bytes.ReplaceAll(stream, []byte("\n"), []byte("\r\n"))
 	}
 	chunks := splitRandom(rng, stream)
+	if c.longLine > 0 {
+		// a long line arriving in several writes: filler up to just before a power-of-two offset, then an address
+		// that straddles it, the write boundary within a few bytes of that offset (inside the address)
+		T := c.longLine
+		a, _ := g.addr()
+		d := 1 + rng.Intn(len(a)+3)
+		filler := bytes.Repeat([]byte("lorem ipsum "), T/12+2)[:T-d-6]
+		long := append(append(append([]byte{}, filler...), " peer "+a+" gone\n"...), stream...)
+		cut := T + rng.Intn(9) - 4
+		if cut < 1 {
+			cut = 1
+		}
+		if cut > len(long)-1 {
+			cut = len(long) - 1
+		}
+		stream = long
+		chunks = nil
+		if rng.Intn(2) == 0 {
+			chunks = append(chunks, long[:cut/3], long[cut/3:cut])
+		} else {
+			chunks = append(chunks, long[:cut])
+		}
+		rest := long[cut:]
+		n := 1 + rng.Intn(len(rest))
+		chunks = append(chunks, rest[:n])
+		if n < len(rest) {
+			chunks = append(chunks, splitRandom(rng, rest[n:])...)
+		}
+		k++
+	}
 	c07ReuseBuffer = rng.Intn(2) == 0
 	canon, ems, pending, bad := runWrites(chunks)
 	reused := c07ReuseBuffer
